@@ -706,3 +706,193 @@ Proof.
   { destruct (scale_ok c); [reflexivity|]. rewrite !andb_false_r in OK. discriminate OK. }
   apply scale_ok_spec in SK. tauto.
 Qed.
+
+(* ================================================================================================ *)
+(* I. whole state                                                                                    *)
+Lemma grads_of_app_g {A B} (f : A -> list Q) (g : B -> list Q) (la : list A) (lb : list B) :
+  grads_of tag_g (map (fun t => (tag_g, f t)) la ++ map (fun t => (tag_t, g t)) lb) = map f la.
+Proof.
+  unfold grads_of. induction la as [|a la IH]; cbn [map app filter fst snd].
+  - induction lb as [|b lb IHb]; [reflexivity|]. cbn [map filter fst]. change (tag_t =? tag_g)%Z with false. exact IHb.
+  - change (tag_g =? tag_g)%Z with true. cbn [map snd]. f_equal. exact IH.
+Qed.
+Lemma grads_of_app_t {A B} (f : A -> list Q) (g : B -> list Q) (la : list A) (lb : list B) :
+  grads_of tag_t (map (fun t => (tag_g, f t)) la ++ map (fun t => (tag_t, g t)) lb) = map g lb.
+Proof.
+  unfold grads_of. induction la as [|a la IH]; cbn [map app filter fst snd].
+  - induction lb as [|b lb IHb]; [reflexivity|]. cbn [map filter fst snd]. change (tag_t =? tag_t)%Z with true.
+    cbn [map snd]. f_equal. exact IHb.
+  - change (tag_g =? tag_t)%Z with false. exact IH.
+Qed.
+
+Lemma in_sections :
+  In sec_rf all_sections /\ In sec_grad all_sections /\ In sec_trap all_sections /\ In sec_adc all_sections /\
+  In sec_ext all_sections /\ In sec_trig all_sections /\ In sec_lset all_sections /\ In sec_linc all_sections.
+Proof. unfold all_sections. cbn [In]. tauto. Qed.
+
+(* the rasters of a file that carries the four raster definitions do not depend on the reading system *)
+Definition has_rasters (f : frows) : Prop :=
+  def_lookup (r_defs f) key_block_raster <> None /\ def_lookup (r_defs f) key_rf_raster <> None /\
+  def_lookup (r_defs f) key_grad_raster <> None /\ def_lookup (r_defs f) key_adc_raster <> None.
+
+Theorem raster_from_file sy1 sy2 f : has_rasters f ->
+  f_braster (read_rows sy1 f) = f_braster (read_rows sy2 f) /\
+  f_rfraster (read_rows sy1 f) = f_rfraster (read_rows sy2 f) /\
+  f_gradraster (read_rows sy1 f) = f_gradraster (read_rows sy2 f) /\
+  f_adcraster (read_rows sy1 f) = f_adcraster (read_rows sy2 f).
+Proof.
+  intros [H1 [H2 [H3 H4]]]. unfold read_rows. cbn [f_braster f_rfraster f_gradraster f_adcraster].
+  unfold raster_from.
+  (* the generated flags: every raster key is assigned to the attribute the decoder uses *)
+  change def_sets_block_raster with true. change def_sets_rf_raster with true.
+  change def_sets_grad_raster with true. change def_sets_adc_raster with true.
+  destruct (def_lookup (r_defs f) key_block_raster); [|contradiction].
+  destruct (def_lookup (r_defs f) key_rf_raster); [|contradiction].
+  destruct (def_lookup (r_defs f) key_grad_raster); [|contradiction].
+  destruct (def_lookup (r_defs f) key_adc_raster); [|contradiction].
+  repeat split.
+Qed.
+
+(* C01 at the level of the whole library state *)
+Theorem roundtrip_state sy s :
+  let s' := read_rows sy (write_rows s) in
+  let rfr := f_rfraster s in
+  Forall2 (row_sim rfr sec_rf) (f_rf s') (f_rf s) /\
+  Forall2 (row_sim rfr sec_grad) (grads_of tag_g (f_grad s')) (grads_of tag_g (f_grad s)) /\
+  Forall2 (row_sim rfr sec_trap) (grads_of tag_t (f_grad s')) (grads_of tag_t (f_grad s)) /\
+  Forall2 (fun r' r => exists body, r' = body ++ [s_adc_dead sy] /\ row_sim rfr sec_adc body r) (f_adc s') (f_adc s) /\
+  Forall2 (row_sim rfr sec_ext) (f_ext s') (f_ext s) /\
+  Forall2 (row_sim rfr sec_trig) (f_trig s') (f_trig s) /\
+  Forall2 (row_sim rfr sec_lset) (f_lset s') (f_lset s) /\
+  Forall2 (row_sim rfr sec_linc) (f_linc s') (f_linc s).
+Proof.
+  destruct in_sections as [I1 [I2 [I3 [I4 [I5 [I6 [I7 I8]]]]]]].
+  cbn zeta. unfold read_rows, write_rows.
+  cbn [f_rf f_grad f_adc f_ext f_trig f_lset f_linc r_rf r_grad r_trap r_adc r_ext r_trig r_lset r_linc].
+  rewrite grads_of_app_g, grads_of_app_t.
+  repeat split; try (apply roundtrip_lib; apply section_cols_ok; assumption).
+  induction (f_adc s) as [|r l IH]; cbn [map]; constructor; [|exact IH].
+  eexists. split; [reflexivity|]. apply roundtrip_row. apply section_cols_ok. exact I4.
+Qed.
+
+(* ---- C02 at the level of the whole library state -------------------------------------------------- *)
+Lemma wcol_rfr_eq rfr rfr' c x : rfr == rfr' -> wcol rfr c x = wcol rfr' c x.
+Proof.
+  intro E. unfold wcol, fmt_apply.
+  assert (P : pre_apply rfr (c_pre c) (c_mult c) x == pre_apply rfr' (c_pre c) (c_mult c) x).
+  { unfold pre_apply. destruct (c_pre c =? 2)%Z; [|reflexivity].
+    assert (R : rnd_he (x / rfr) = rnd_he (x / rfr')) by (apply rnd_he_Proper; rewrite E; reflexivity).
+    rewrite R, E. reflexivity. }
+  destruct (0 <? c_fmt c)%Z; [apply fmt_sig_Proper; exact P|apply fmt_int_Proper; exact P].
+Qed.
+Lemma write_row_rfr_eq rfr rfr' cs : rfr == rfr' -> forall r, write_row rfr cs r = write_row rfr' cs r.
+Proof.
+  intro E. induction cs as [|c cs IH]; intros [|x r]; try reflexivity.
+  cbn [write_row]. rewrite (wcol_rfr_eq rfr rfr' c x E), IH. reflexivity.
+Qed.
+Lemma write_block_br_eq br br' b : br == br' -> write_block br b = write_block br' b.
+Proof.
+  intro E. destruct b as [|id [|dur evs]]; try reflexivity. cbn [write_block].
+  assert (P : dur / br == dur / br') by (rewrite E; reflexivity). rewrite (fmt_int_Proper _ _ P). reflexivity.
+Qed.
+
+Lemma rewrite_blocks br br' l : br' == br -> ~ br == 0 ->
+  map (write_block br') (map (read_block br') (map (write_block br) l)) = map (write_block br) l.
+Proof.
+  intros E NZ. induction l as [|b l IH]; [reflexivity|]. cbn [map]. rewrite IH. f_equal.
+  rewrite (write_block_br_eq br br' b) by (symmetry; exact E).
+  rewrite rewrite_block; [reflexivity|]. intro H. apply NZ. rewrite <- E. exact H.
+Qed.
+
+Lemma rewrite_shapes l : (1 <= shape_sample_fmt)%Z ->
+  map write_shape (map read_shape (map write_shape l)) = map write_shape l.
+Proof.
+  intro H. induction l as [|x l IH]; [reflexivity|]. cbn [map]. rewrite IH, rewrite_shape by exact H. reflexivity.
+Qed.
+
+Lemma rewrite_sec rfr rfr' cs l : cols_ok cs = true -> rfr' == rfr ->
+  Forall (row_on_raster rfr cs) (map (write_row rfr cs) l) ->
+  map (write_row rfr' cs) (map (read_row cs) (map (write_row rfr cs) l)) = map (write_row rfr cs) l.
+Proof.
+  intros OK E H. rewrite <- (rewrite_lib rfr cs OK l H) at 2.
+  apply map_ext. intro r. apply write_row_rfr_eq. exact E.
+Qed.
+
+Lemma sig_fmts_ok : (1 <= shape_sample_fmt)%Z /\ (1 <= def_fmt)%Z.
+Proof. split; vm_compute; discriminate. Qed.
+
+Lemma no_raster_sections :
+  no_raster sec_grad = true /\ no_raster sec_trap = true /\ no_raster sec_adc = true /\ no_raster sec_ext = true /\
+  no_raster sec_trig = true /\ no_raster sec_lset = true /\ no_raster sec_linc = true.
+Proof. repeat split; vm_compute; reflexivity. Qed.
+
+(* zip() drops what lies beyond the format: appending to a row that already fills every column changes nothing *)
+Lemma write_row_app rfr cs : forall t extra, (length cs <= length t)%nat -> write_row rfr cs (t ++ extra) = write_row rfr cs t.
+Proof.
+  induction cs as [|c cs IH]; intros t extra L.
+  - destruct (t ++ extra); destruct t; reflexivity.
+  - destruct t as [|x t]; [cbn in L; lia|]. cbn [app write_row]. rewrite IH by (cbn in L; lia). reflexivity.
+Qed.
+Lemma read_row_length cs : forall t, (length cs <= length t)%nat -> length (read_row cs t) = length cs.
+Proof.
+  induction cs as [|c cs IH]; intros t L; [destruct t; reflexivity|].
+  destruct t as [|x t]; [cbn in L; lia|]. cbn [read_row length]. rewrite IH by (cbn in L; lia). reflexivity.
+Qed.
+Lemma write_row_length rfr cs : forall t, (length cs <= length t)%nat -> length (write_row rfr cs t) = length cs.
+Proof.
+  induction cs as [|c cs IH]; intros t L; [destruct t; reflexivity|].
+  destruct t as [|x t]; [cbn in L; lia|]. cbn [write_row length]. rewrite IH by (cbn in L; lia). reflexivity.
+Qed.
+
+(* every ADC row of the state fills the ADC format (the writer indexes data[0:5]: shorter rows are an IndexError) *)
+Definition adc_rows_full (s : fstate) : Prop := Forall (fun r => (length sec_adc <= length r)%nat) (f_adc s).
+
+Theorem write_read_write_partial sy s :
+  let s' := read_rows sy (write_rows s) in
+  f_braster s' == f_braster s -> ~ f_braster s == 0 -> f_rfraster s' == f_rfraster s ->
+  Forall (row_on_raster (f_rfraster s) sec_rf) (map (write_row (f_rfraster s) sec_rf) (f_rf s)) ->
+  adc_rows_full s ->
+  write_rows s' = write_rows s.
+Proof.
+  intros s' EB NZ ER OR AF.
+  destruct in_sections as [I1 [I2 [I3 [I4 [I5 [I6 [I7 I8]]]]]]].
+  destruct no_raster_sections as [N2 [N3 [N4 [N5 [N6 [N7 N8]]]]]].
+  destruct sig_fmts_ok as [SF DF].
+  set (rfr := f_rfraster s) in *. set (rfr' := f_rfraster s') in *.
+  assert (plain : forall cs l, In cs all_sections -> no_raster cs = true ->
+            map (write_row rfr' cs) (map (read_row cs) (map (write_row rfr cs) l)) = map (write_row rfr cs) l).
+  { intros cs l HI HN. apply rewrite_sec; [apply section_cols_ok; exact HI|exact ER|].
+    apply Forall_forall. intros t _. apply no_raster_on_raster. exact HN. }
+  unfold write_rows. fold rfr rfr'.
+  assert (D : write_defs (f_defs s') = write_defs (f_defs s)).
+  { unfold s', read_rows, write_rows. cbn [f_defs r_defs]. apply rewrite_defs. exact DF. }
+  assert (B : map (write_block (f_braster s')) (f_blocks s') = map (write_block (f_braster s)) (f_blocks s)).
+  { unfold s' at 2. unfold read_rows, write_rows. cbn [f_blocks r_blocks r_defs].
+    change (raster_from def_sets_block_raster (write_defs (f_defs s)) key_block_raster (s_braster sy))
+      with (f_braster s'). apply rewrite_blocks; assumption. }
+  assert (RF : map (write_row rfr' sec_rf) (f_rf s') = map (write_row rfr sec_rf) (f_rf s)).
+  { unfold s' at 1. unfold read_rows, write_rows. cbn [f_rf r_rf]. fold rfr.
+    apply rewrite_sec; [apply section_cols_ok; exact I1|exact ER|exact OR]. }
+  assert (G : map (write_row rfr' sec_grad) (grads_of tag_g (f_grad s')) = map (write_row rfr sec_grad) (grads_of tag_g (f_grad s))).
+  { unfold s' at 1. unfold read_rows, write_rows. cbn [f_grad r_grad r_trap]. rewrite grads_of_app_g. fold rfr. apply plain; assumption. }
+  assert (T : map (write_row rfr' sec_trap) (grads_of tag_t (f_grad s')) = map (write_row rfr sec_trap) (grads_of tag_t (f_grad s))).
+  { unfold s' at 1. unfold read_rows, write_rows. cbn [f_grad r_grad r_trap]. rewrite grads_of_app_t. fold rfr. apply plain; assumption. }
+  assert (A : map (write_row rfr' sec_adc) (f_adc s') = map (write_row rfr sec_adc) (f_adc s)).
+  { unfold s' at 1. unfold read_rows, write_rows. cbn [f_adc r_adc]. fold rfr.
+    transitivity (map (write_row rfr' sec_adc) (map (read_row sec_adc) (map (write_row rfr sec_adc) (f_adc s))));
+      [|apply plain; assumption].
+    rewrite !map_map. apply map_ext_in. intros r HR.
+    apply write_row_app. unfold adc_rows_full in AF. rewrite Forall_forall in AF. specialize (AF r HR).
+    rewrite read_row_length; [lia|]. rewrite write_row_length; [lia|exact AF]. }
+  assert (X : map (write_row rfr' sec_ext) (f_ext s') = map (write_row rfr sec_ext) (f_ext s)).
+  { unfold s' at 1. unfold read_rows, write_rows. cbn [f_ext r_ext]. fold rfr. apply plain; assumption. }
+  assert (TR : map (write_row rfr' sec_trig) (f_trig s') = map (write_row rfr sec_trig) (f_trig s)).
+  { unfold s' at 1. unfold read_rows, write_rows. cbn [f_trig r_trig]. fold rfr. apply plain; assumption. }
+  assert (LS : map (write_row rfr' sec_lset) (f_lset s') = map (write_row rfr sec_lset) (f_lset s)).
+  { unfold s' at 1. unfold read_rows, write_rows. cbn [f_lset r_lset]. fold rfr. apply plain; assumption. }
+  assert (LI : map (write_row rfr' sec_linc) (f_linc s') = map (write_row rfr sec_linc) (f_linc s)).
+  { unfold s' at 1. unfold read_rows, write_rows. cbn [f_linc r_linc]. fold rfr. apply plain; assumption. }
+  assert (SH : map write_shape (f_shape s') = map write_shape (f_shape s)).
+  { unfold s'. unfold read_rows, write_rows. cbn [f_shape r_shape]. apply rewrite_shapes. exact SF. }
+  rewrite D, B, RF, G, T, A, X, TR, LS, LI, SH. reflexivity.
+Qed.
